@@ -33,6 +33,7 @@ SPEC = {
         "differential harness /verif/harness/c02 with scripted net.Conn doubles; shim VerifStartBridge mirrors the tail of startSourceBridge",
         "Go race detector (race build of the c02 harness): checks that accesses to the installed source forwarder are ordered by sourceConnMu, which the model assumes (one atomic cell); a dynamic check, not a proof",
         "golang.org/x/time/rate: WaitN(k) with k <= burst fails only on context cancellation (documented contract; parameter of the model)",
+        "xnode cases: the two relay hops are modelled as two copy loops in a row (relay2); that the relay functions are plain io.Copy pairs with half-close and arm no timer on the relayed connections is pinned by three skeletons; io.Copy itself (stdlib) is trusted to be the copy loop",
     ],
     "assumptions": [
         "closure 'within bounded time' is wall-clock: the model proves the close is issued; the harness observes it under a 15 s watchdog (partial)",
